@@ -331,6 +331,10 @@ func (r *Runner) stop(ctx context.Context) bool {
 	if !r.handlingTrap && (r.exit.returning || r.exit.exiting) {
 		return true
 	}
+	if r.breakEnclosing > 0 || r.contnEnclosing > 0 {
+		// A pending break or continue skips everything up to its loop.
+		return true
+	}
 	if err := ctx.Err(); err != nil {
 		r.exit.fatal(err)
 		return true
